@@ -271,9 +271,13 @@ func c04(r *core.Run) {
 			edgeFlow := func() *core.FlowResult {
 				if resE == nil {
 					m.exemptEdge = exemptEdgeWhy
+					m.exemptRet = exemptWhy // a documented reason may also sit on a return of a per-type helper
 					m.ExemptedEdges = map[edgeCond]string{}
+					m.Exempted = map[*ssa.Return]string{}
 					resE = m.flow(d, core.StateSet(0).Add(stNo))
 					m.exemptEdge = nil
+					m.exemptRet = nil
+					m.Exempted = nil
 					for e, why := range m.ExemptedEdges {
 						r.ExemptObl("R1", dn, "edge:"+describeCond(e), p.InstrPos(e.If), why)
 					}
